@@ -5,6 +5,8 @@
 #include "/repo/opm/input/eclipse/Parser/Parser.cpp"
 #include <opm/input/eclipse/Parser/ParserKeywords/E.hpp>
 #include <opm/input/eclipse/Parser/ParserKeywords/G.hpp>
+#include <opm/input/eclipse/Parser/ParserKeywords/T.hpp>
+#include <opm/input/eclipse/Parser/ParserKeywords/U.hpp>
 #include <opm/input/eclipse/Parser/InputErrorAction.hpp>
 #include <sstream>
 #include <verif.h>
@@ -41,6 +43,8 @@ static void same(const Opm::Deck& a, const Opm::Deck& b) {
                     CHECK(ia.defaultApplied(j) == ib.defaultApplied(j)); CHECK(ia.hasValue(j) == ib.hasValue(j));
                     if (!ia.hasValue(j) || !ib.hasValue(j)) continue;
                     if (ia.getType() == Opm::type_tag::integer) CHECK(ia.get<int>(j) == ib.get<int>(j));
+                    else if (ia.getType() == Opm::type_tag::fdouble) CHECK(EQ(ia.get<double>(j), ib.get<double>(j)));
+                    else if (ia.getType() == Opm::type_tag::raw_string) CHECK(static_cast<const std::string&>(ia.get<Opm::RawString>(j)) == static_cast<const std::string&>(ib.get<Opm::RawString>(j)));
                     else CHECK(ia.get<std::string>(j) == ib.get<std::string>(j));
                 }
             }
@@ -85,6 +89,31 @@ extern "C" void h_deck_list(void) {
     Outcome a = parse(parser, A);
     CHECK(!a.threw); if (a.threw) return;
     CHECK(a.deck.size() == 3); CHECK(a.deck[0].size() == nrec);
+    std::ostringstream os; os << a.deck; const std::string t1 = os.str();
+    Outcome b = parse(parser, t1);
+    CHECK(!b.threw); if (b.threw) return;
+    same(a.deck, b.deck);
+    std::ostringstream os2; os2 << b.deck;
+    CHECK(os2.str() == t1);
+}
+
+// raw-string keyword behind a data-like keyword: TSTEP (written with line splitting switched on) followed by a UDQ DEFINE whose expression has
+// five symbolic operators out of + - * / (a division slash inside the expression must not end up as the last slash of a physical line:
+// the reader takes the last slash of each line of a UDQ record as the record terminator).
+extern "C" void h_deck_udq(void) {
+    std::string A = "TSTEP\n 1 2 /\nUDQ\nDEFINE FUX ( WOPR P1";
+    static const char* operands[5] = { "WOPR P2", "100", "FU_LIM", "WWPR P3", "7" };
+    for (int k = 0; k < 5; ++k) {
+        unsigned char op = nondet_uchar(); ASSUME(op == '+' || op == '-' || op == '*' || op == '/');
+        A += " "; A.push_back((char) op); A += " "; A += operands[k];
+        if (k == 0) A += " )";
+    }
+    A += " /\n/\nEQLDIMS\n 2* 7 /\n";
+    Opm::Parser parser(false);
+    parser.addKeyword<Opm::ParserKeywords::EQLDIMS>(); parser.addKeyword<Opm::ParserKeywords::TSTEP>(); parser.addKeyword<Opm::ParserKeywords::UDQ>();
+    Outcome a = parse(parser, A);
+    CHECK(!a.threw); if (a.threw) return;
+    CHECK(a.deck.size() == 3); CHECK(a.deck[1].size() == 1);
     std::ostringstream os; os << a.deck; const std::string t1 = os.str();
     Outcome b = parse(parser, t1);
     CHECK(!b.threw); if (b.threw) return;
